@@ -147,6 +147,34 @@ SIMPLE = [
     V("x = a .myop. b .and. c"),
     V("x = .unop. a .myop. .unop. b"),
     V("flag = a .lt. b .myop. c .gt. d"),
+    # placeholder stress: ten or more top-level bracketed groups / non-trivial strings / exponent literals
+    V("x = f(1) + f(2) + f(3) + f(4) + f(5) + f(6) + f(7) + f(8) + f(9) + f(10) + f(11) + f(12)", one=True),          # 125
+    V("s = 'a 1' // 'a 2' // 'a 3' // 'a 4' // 'a 5' // 'a 6' // 'a 7' // 'a 8' // 'a 9' // 'a 10' // 'a 11'", one=True),
+    V("call sub6((a + 1), (a + 2), (a + 3), (a + 4), (a + 5), (a + 6), (a + 7), (a + 8), (a + 9), (a + 10), (a + 11))", one=True),
+    V("a(1:n:(k + 1)) = 0", one=True, where=True),
+    V("b(k::inc(k - 1), 1) = b(::(2), (j))", one=True),
+    V("a = (/ 1, 2, 1, 2, 3, 1, 2, 1, 2, 3, 1, 2, 1, 2, 3, 1, 2, 9 /)", one=True, where=True),                          # 130
+    V("call sub7(a, b, a, b, a, b, a, b, a, b, a, b, a, b, a, b, a, b, 1, 1, 'c', 'c')", one=True),
+    V("x = f((a + b)) + g(a + b) + h((a + b), a + b)", one=True),
+    V("s = '\"a b\"' // \"a b\" // 'a b'", one=True),
+    # names that begin like keywords
+    V("concurrent_idx = 1", one=True),
+    V("contiguous = block + critical", one=True),                                                                        # 135
+    V("if (error) stop", one=True),
+    V("endif_count = elsewhere_flag + dowhile", one=True),
+    V("x = 1.e-3.eq.y", one=True),
+    V("flag = x.lt.1.and.y.gt.2.e0", one=True),
+    V("print *, a(i), (b(i, j), j = 1, n), 'x', c%d", ),                                                                 # 140
+    V("write(*, fmt=100, err=10, iostat=ios) x"),
+    V("read(unit=5, fmt=*, end=10) x", one=True),
+    V("x = y%z(1)%w(2, 3)%v"),
+    V("deallocate(obj%arr, stat=ierr, errmsg=msg)"),
+    V("allocate(real(kind=8) :: w3(n), stat=ierr)"),                                                                      # 145
+    V("p(1:n) => q"),
+    V("call sub8(f=g, x=(/ 1.0, 2.0 /), n=size([1, 2, 3]))"),
+    V("x = a ** b ** c * d / e - f + g // h == i .and. j .or. k .eqv. l"),
+    V("x = -(-(-a))", one=True),
+    V("x = (((a)))", one=True),                                                                                          # 150
 ]
 
 # ------------------------------------------------------------------- specification statements
@@ -226,6 +254,15 @@ DECL = [
     V("external ext2, ext3", one=True, blk=True),
     V("class(*), pointer :: up", blk=True),
     V("integer, volatile :: iv", blk=True),
+    V("integer :: lst(18) = (/ 1, 2, 1, 2, 3, 1, 2, 1, 2, 3, 1, 2, 1, 2, 3, 1, 2, 9 /)", one=True, blk=True),            # 76
+    V("data lst /1, 2, 1, 2, 3, 1, 2, 1, 2, 3, 1, 2, 1, 2, 3, 1, 2, 9/", one=True, blk=True, bdata=True),
+    V("real(kind) :: rk", blk=True),
+    V("integer(kind=kind(1)) :: ik", blk=True),
+    V("real :: concurrent, block, critical, contiguous, error", one=True, blk=True),                                     # 80
+    V("equivalence (q1, q2, q3), (q4(1), q5(2))", one=True, bdata=True),
+    V("common /blk2/ z1(3), z2 /blk3/ z3", one=True, bdata=True),
+    V("dimension q6(n, m), q7(:), q8(2:n), q9(*), q10(n, 2:*)", mod=False, req="proc"),
+    V("character(len=*), parameter :: fmt1 = '(a, \"x\", i3)'", one=True, blk=True),
 ]
 
 USE = [
@@ -265,6 +302,9 @@ COMP = [
     V("private", head=True),                                                          # 10
     V("sequence", head=True),
     V("real, codimension[*] :: cf", std=8),
+    V("real, contiguous, pointer :: cp2(:)", std=8),                                                                     # 13
+    V("procedure(iface), pointer, pass(self) :: fp2"),
+    V("integer :: cnt(18) = (/ 1, 2, 1, 2, 3, 1, 2, 1, 2, 3, 1, 2, 1, 2, 3, 1, 2, 9 /)"),
 ]
 TBIND = [
     V("procedure :: m1"),                                                             # 1
@@ -293,7 +333,8 @@ MODPROC = [
 OPEN = {
     "if": [V("if (x > 0) then", one=True), V("if (flag .and. (i == 1)) then", one=True)],
     "do": [V("do i = 1, n", one=True), V("do i = 1, n, 2", one=True), V("do while (x > 0)", one=True), V("do", one=True),
-           V("do j = n, 1, -1", one=True), V("do, i = 1, n")],
+           V("do j = n, 1, -1", one=True), V("do, i = 1, n"),
+           V("do concurrent_idx = 1, n, 2", one=True), V("do concurrent = 1, 10", one=True), V("do while (a(n) > f((x)))", one=True)],
     # labelled DO: the label is supplied by the grammar ({L})
     "dol": [V("do {L} i = 1, n", one=True), V("do {L}, i = 1, n", one=True), V("do {L} while (x > 0)", one=True), V("do {L}", one=True)],
     "doconc": [V("do concurrent (i = 1:n)", std=8), V("do concurrent (i = 1:n, j = 1:n, i /= j)", std=8)],
